@@ -906,6 +906,123 @@ func ExecPriStress(c CasePriStress) *vkit.Result {
 }
 
 // ---------------------------------------------------------------------------
+// tie stress: the windows inside one call that the controlled mode cannot own.
+// (1) consumers *entering* a blocking pop race a Close: whatever the order, every
+// consumer must return. (2) priority queue: a Pop that empties the queue races a
+// Push: when both have returned and the queue is non-empty, the wait channel must
+// be readable.
+
+type CaseTie struct {
+	Kind      string `json:"kind"` // a blocking queue kind, or the priority queue
+	Procs     int    `json:"procs"`
+	Rounds    int    `json:"rounds"`
+	Consumers int    `json:"consumers"`
+	Anyway    []bool `json:"anyway"`
+	PreItems  int    `json:"pre_items"` // priq: items queued before the round (the racing Pop takes the last one)
+}
+
+func GenTie(t *rapid.T) CaseTie {
+	c := CaseTie{Kind: rapid.SampledFrom(append(append([]string{}, blockingKinds...), qadapt.KindPri, qadapt.KindPri)).Draw(t, "kind")}
+	c.Procs = rapid.SampledFrom([]int{2, 4, 8}).Draw(t, "procs")
+	c.Rounds = rapid.SampledFrom([]int{300, 1000, 3000}).Draw(t, "rounds")
+	c.Consumers = rapid.IntRange(1, 4).Draw(t, "consumers")
+	for i := 0; i < c.Consumers; i++ {
+		c.Anyway = append(c.Anyway, rapid.Bool().Draw(t, "anyway"))
+	}
+	c.PreItems = rapid.IntRange(1, 2).Draw(t, "pre")
+	return c
+}
+
+func ExecTie(c CaseTie) *vkit.Result {
+	res := &vkit.Result{}
+	if c.Rounds < 1 || c.Rounds > 100000 || c.Consumers < 1 || c.Consumers > 16 || len(c.Anyway) < c.Consumers || c.PreItems < 1 || c.PreItems > 8 {
+		res.Skip("malformed-config")
+		return res
+	}
+	if qadapt.New(c.Kind, 0, 0) == nil {
+		res.Skip("malformed-config")
+		return res
+	}
+	if c.Procs >= 1 && c.Procs <= 64 {
+		defer runtime.GOMAXPROCS(runtime.GOMAXPROCS(c.Procs))
+	}
+	sched := vkit.NewSched()
+	var problem, site string
+	round := 0
+	op := sched.Go("tie-rounds", func() {
+		for round = 0; round < c.Rounds && problem == ""; round++ {
+			if c.Kind == qadapt.KindPri {
+				q := qadapt.New(qadapt.KindPri, 64, 0)
+				for i := 0; i < c.PreItems; i++ {
+					q.PushPri(i, 0)
+				}
+				// drain to exactly one queued item with its signal consumed-and-followed, as the protocol wants
+				for i := 0; i < c.PreItems-1; i++ {
+					select {
+					case <-q.WaitCh():
+					default:
+					}
+					q.PopPri()
+				}
+				start := make(chan struct{})
+				var wg sync.WaitGroup
+				wg.Add(2)
+				go func() { // the consumer of the documented protocol: receive, then pop (empties the queue)
+					defer wg.Done()
+					<-start
+					select {
+					case <-q.WaitCh():
+					default:
+					}
+					q.PopPri()
+				}()
+				go func() { defer wg.Done(); <-start; q.PushPri(100, 1) }()
+				close(start)
+				wg.Wait()
+				// at rest now: no call in progress, no signal held by anybody
+				if n := q.Len(); n > 0 && len(q.WaitCh()) != 1 {
+					site, problem = "tie-waitch-not-readable", fmt.Sprintf("round %d: a Pop that emptied the queue raced a Push; both have returned, the queue holds %d item(s), but the wait channel is not readable", round, n)
+					return
+				}
+				continue
+			}
+			q := qadapt.New(c.Kind, 0, 0)
+			start := make(chan struct{})
+			var wg sync.WaitGroup
+			for i := 0; i < c.Consumers; i++ {
+				pop := q.Pop
+				if c.Anyway[i] {
+					pop = q.PopAnyway
+				}
+				wg.Add(1)
+				go func() { defer wg.Done(); <-start; _, _, _ = pop() }()
+			}
+			wg.Add(1)
+			go func() { defer wg.Done(); <-start; q.Close() }()
+			close(start)
+			wg.Wait() // a consumer that misses the close parks forever: seen by the quiescence detector below
+		}
+	})
+	sched.MustQuiesce()
+	if !op.Done() {
+		return res.Failf("tie-close-missed", "%s: round %d: %d consumers entered their blocking pop while Close ran; Close has returned, yet somebody is parked forever", c.Kind, round, c.Consumers)
+	}
+	if p := op.Panic(); p != nil {
+		return res.Failf("tie-panic", "%v", p)
+	}
+	if problem != "" {
+		return res.Failf(site, "%s", problem)
+	}
+	res.NonTrivial = c.Rounds >= 300
+	if c.Kind == qadapt.KindPri {
+		res.Class("priq-pop-vs-push")
+	} else {
+		res.Class("pop-entry-vs-close")
+	}
+	return res
+}
+
+// ---------------------------------------------------------------------------
 
 var PartCtl = &vkit.Part[CaseCtl]{
 	Property: Property, Name: "controlled",
@@ -951,4 +1068,20 @@ var PartPriStressRace = &vkit.Part[CasePriStress]{
 	Rule:  priStressRule + " (binary built with -race)",
 	Quick: 100, Thorough: 1000,
 	Gen: GenPriStress, Exec: ExecPriStress,
+}
+
+var tieRule = "rapid: per case 300-3000 rounds on fresh queues, GOMAXPROCS 2/4/8. Blocking queues: 1-4 consumers enter Pop / PopAnyway while Close runs, all released together by a barrier; whatever the order, every consumer must return (a parked one is seen at quiescence - exact). Priority queue: a receive-then-Pop that empties the queue races a Push; when both have returned, a non-empty queue must have a readable wait channel. Non-trivial: >= 300 rounds; distinct = distinct case JSON"
+
+var PartTie = &vkit.Part[CaseTie]{
+	Property: Property, Name: "tie-stress",
+	Rule:  tieRule,
+	Quick: 120, Thorough: 800,
+	Gen: GenTie, Exec: ExecTie,
+}
+
+var PartTieRace = &vkit.Part[CaseTie]{
+	Property: Property, Name: "race-tie-stress",
+	Rule:  tieRule + " (binary built with -race)",
+	Quick: 30, Thorough: 200,
+	Gen: GenTie, Exec: ExecTie,
 }
